@@ -1006,6 +1006,97 @@ Qed.
 Lemma to_registers_repack_big s : to_registers spec_code Big true s = to_registers spec_code Big false s.
 Proof. reflexivity. Qed.
 
+(* ---- coils: to_coils -> fromCoils carries the (padded) payload ---- *)
+
+Definition msb8 (x : N) : list bool := bits_msb 8 (Z.of_N x).
+
+Lemma testbit_low A B i : 0 <= B < 256 -> 0 <= i < 8 -> Z.testbit (A * 256 + B) i = Z.testbit B i.
+Proof.
+  intros HB Hi. rewrite <- (Z.mod_pow2_bits_low (A * 256 + B) 8 i) by lia.
+  change (2 ^ 8) with 256. rewrite Z.add_comm, Z.mod_add by lia. rewrite Z.mod_small by lia. reflexivity.
+Qed.
+
+Lemma testbit_high A B i : 0 <= B < 256 -> 0 <= i -> Z.testbit (A * 256 + B) (i + 8) = Z.testbit A i.
+Proof.
+  intros HB Hi. rewrite <- Z.div_pow2_bits by lia. change (2 ^ 8) with 256.
+  rewrite Z.add_comm, Z.div_add by lia. rewrite Z.div_small by lia. reflexivity.
+Qed.
+
+Lemma bits_msb_word a b :
+  wfb [a; b] = true -> bits_msb 16 (word_val [a; b]) = msb8 a ++ msb8 b.
+Proof.
+  intros Hw. cbn [wfb forallb] in Hw. rewrite andb_true_r in Hw. apply andb_true_iff in Hw as [Ha Hb].
+  apply byteb_lt in Ha. apply byteb_lt in Hb.
+  rewrite word_val_be. unfold rd_be16, msb8.
+  set (A := Z.of_N a). set (B := Z.of_N b). assert (HB : 0 <= B < 256) by (unfold B; lia).
+  change (bits_msb 16 (A * 256 + B)) with
+    [Z.testbit (A * 256 + B) (7 + 8); Z.testbit (A * 256 + B) (6 + 8); Z.testbit (A * 256 + B) (5 + 8);
+     Z.testbit (A * 256 + B) (4 + 8); Z.testbit (A * 256 + B) (3 + 8); Z.testbit (A * 256 + B) (2 + 8);
+     Z.testbit (A * 256 + B) (1 + 8); Z.testbit (A * 256 + B) (0 + 8);
+     Z.testbit (A * 256 + B) 7; Z.testbit (A * 256 + B) 6; Z.testbit (A * 256 + B) 5; Z.testbit (A * 256 + B) 4;
+     Z.testbit (A * 256 + B) 3; Z.testbit (A * 256 + B) 2; Z.testbit (A * 256 + B) 1; Z.testbit (A * 256 + B) 0].
+  rewrite !(testbit_high A B) by lia. rewrite !(testbit_low A B) by lia. reflexivity.
+Qed.
+
+Lemma to_coils_bytes n s :
+  length s = (2 * n)%nat -> wfb s = true ->
+  to_coils spec_code (map word_val (words16 s)) = flat_map msb8 s.
+Proof.
+  revert s. unfold to_coils. change (pc_coil_bits spec_code) with 16%nat.
+  apply (even_list_ind (fun s => wfb s = true ->
+           flat_map (bits_msb 16) (map word_val (words16 s)) = flat_map msb8 s)); [reflexivity|].
+  intros a b t IH Hw. change (a :: b :: t) with ([a; b] ++ t) in Hw. rewrite wfb_app in Hw.
+  apply andb_true_iff in Hw as [Hab Ht].
+  cbn [words16 map flat_map]. rewrite (bits_msb_word a b Hab), (IH Ht), <- app_assoc. reflexivity.
+Qed.
+
+Lemma msb8_explicit x : exists c0 c1 c2 c3 c4 c5 c6 c7, msb8 x = [c0; c1; c2; c3; c4; c5; c6; c7].
+Proof. unfold msb8. cbn [bits_msb]. repeat eexists. Qed.
+
+Lemma chunks8_flat_map_msb8 s : chunks8 (flat_map msb8 s) = map msb8 s.
+Proof.
+  induction s as [|x t IH]; [reflexivity|]. cbn [flat_map map].
+  destruct (msb8_explicit x) as (c0 & c1 & c2 & c3 & c4 & c5 & c6 & c7 & E). rewrite E.
+  cbn [app chunks8]. now rewrite IH.
+Qed.
+
+Lemma length_flat_map_msb8 s : length (flat_map msb8 s) = (8 * length s)%nat.
+Proof.
+  induction s as [|x t IH]; [reflexivity|]. cbn [flat_map]. rewrite app_length, IH.
+  destruct (msb8_explicit x) as (c0 & c1 & c2 & c3 & c4 & c5 & c6 & c7 & E). rewrite E. cbn [length]. lia.
+Qed.
+
+Lemma all_bytes_check :
+  forallb (fun x => list_eqb N.eqb (pack_bitstring (rev (msb8 x))) [x]) (map N.of_nat (seq 0 256)) = true.
+Proof. vm_compute. reflexivity. Qed.
+
+Lemma list_eqb_N_eq (a b : list N) : list_eqb N.eqb a b = true -> a = b.
+Proof.
+  revert b. induction a as [|x a IH]; intros [|y b] H; try discriminate; [reflexivity|].
+  cbn [list_eqb] in H. apply andb_true_iff in H as [H1 H2]. apply N.eqb_eq in H1. subst. f_equal. now apply IH.
+Qed.
+
+Lemma pack_rev_msb8 x : byteb x = true -> pack_bitstring (rev (msb8 x)) = [x].
+Proof.
+  intros Hx. apply byteb_lt in Hx. pose proof all_bytes_check as H. rewrite forallb_forall in H.
+  apply list_eqb_N_eq, H. apply in_map_iff. exists (N.to_nat x). split; [apply N2Nat.id|].
+  apply in_seq. lia.
+Qed.
+
+Theorem from_coils_to_coils n s :
+  length s = (2 * n)%nat -> wfb s = true ->
+  from_coils spec_code (to_coils spec_code (map word_val (words16 s))) = Ok s.
+Proof.
+  intros Hl Hw. rewrite (to_coils_bytes n s Hl Hw). unfold from_coils.
+  change (pc_from_coils_mod spec_code) with 8%nat. cbn [Nat.eqb].
+  rewrite length_flat_map_msb8. replace (Nat.modulo (8 * length s) 8) with 0%nat
+    by (symmetry; rewrite Nat.mul_comm; apply Nat.mod_mul; lia).
+  cbn [repeat app]. rewrite chunks8_flat_map_msb8. f_equal.
+  clear Hl. induction s as [|x t IH]; [reflexivity|].
+  cbn [wfb forallb] in Hw. apply andb_true_iff in Hw as [Hx Ht]. fold (wfb t) in Ht.
+  cbn [map flat_map]. rewrite (pack_rev_msb8 x Hx), (IH Ht). reflexivity.
+Qed.
+
 (* ================================================================= part 3: the generated code *)
 
 (* The tie to the source: what the translator extracted from payload.py / constants.py on
@@ -1113,6 +1204,21 @@ Definition via_coils (bo wo : endian) (vs : list value) : res (list value * nat)
 Theorem via_coils_refuted :
   exists bo wo vs, wf_values vs = true /\ via_coils bo wo vs = Ok ([U32 0x33441122], 4%nat) /\ vs = [U32 0x11223344].
 Proof. exists Big, Little, [U32 0x11223344]. vm_compute. repeat split. Qed.
+
+(* with word order Big (the one the decoder silently gets) the coil transport is faithful *)
+Theorem via_coils_partial bo vs :
+  wf_values vs = true ->
+  exists s, to_string code bo Big vs = Ok s /\ via_coils bo Big vs = Ok (vs, length s).
+Proof.
+  intros H. unfold via_coils. rewrite code_is_spec.
+  destruct (via_registers_general bo Big vs (wf_values_domain vs H)) as (s & regs & Hs & Hr & _ & Hd).
+  exists s. split; [exact Hs|]. rewrite Hs. cbn [bind]. rewrite Hr. cbn [bind].
+  rewrite to_registers_spec in Hr. injection Hr as <-.
+  rewrite (from_coils_to_coils (Nat.div (length s + 1) 2)); [|apply padded_even|].
+  - cbn [bind]. change (from_coils_wordorder spec_code Big) with Big.
+    rewrite Hd, map_decoded_wf by exact H. reflexivity.
+  - rewrite wfb_app, reg_pad_wfb, andb_true_r. apply (to_string_wfb bo Big vs s (wf_values_domain vs H) Hs).
+Qed.
 
 Theorem signed_decode_code bo wo k payload ptr u p :
   kind_signed k = true ->
